@@ -90,8 +90,9 @@ Eval ==
     /\ UNCHANGED inst
 
 Checked == {"new", "enc", "dec", "blocks", "drop", "reset", "clone", "from", "eval"}
-\* events that belong to other layers of the same trace are consumed unchanged
-Skip == tpos <= N /\ Rec[tpos].ev \notin (Checked \cup ExtraKinds) /\ tpos' = tpos + 1 /\ UNCHANGED inst
+\* events that belong to other layers of the same trace are consumed unchanged; an `abort` (the process died
+\* in the code under test) is never consumed
+Skip == tpos <= N /\ Rec[tpos].ev \notin (Checked \cup ExtraKinds \cup {"abort"}) /\ tpos' = tpos + 1 /\ UNCHANGED inst
 
 Next == New \/ Enc \/ Dec \/ Blocks \/ Derive("clone") \/ Derive("from") \/ Drop \/ Reset \/ Eval \/ Skip
 vars == <<tpos, inst>>
